@@ -137,3 +137,31 @@ func Field(v any, name string) reflect.Value {
 	}
 	return rv.FieldByName(name)
 }
+
+// private state is read by reflection to refine state keys (and for two structural invariants). A field
+// that was renamed or removed in the repository must not turn a check into a harness error: Safe returns
+// "?" (a coarser key / a skipped clause) and the name is reported in the evidence notes.
+var unreadable = map[string]bool{}
+
+func Safe(name string, fn func() string) (out string) {
+	defer func() {
+		if r := recover(); r != nil {
+			unreadable[name] = true
+			out = "?"
+		}
+	}()
+	return fn()
+}
+
+// MarkUnreadable records a private field the harness could not read.
+func MarkUnreadable(name string) { unreadable[name] = true }
+
+// UnreadableNotes lists what Safe could not read (for the evidence file).
+func UnreadableNotes() []string {
+	var out []string
+	for n := range unreadable {
+		out = append(out, "private state not readable by reflection (renamed?): "+n+" - state keys are coarser / the clause using it is skipped")
+	}
+	sort.Strings(out)
+	return out
+}
